@@ -74,6 +74,27 @@ def garbage(rng_seed, n):
 GROWTH_N = {"quick": 250, "thorough": 2000}
 
 
+def short_texts():
+    """EXHAUSTIVE short texts: every 1-byte text, every 2-byte text over 48 bytes of every lexical class, every 3-byte text over
+    16 bytes and every 4-byte text over 9 bytes that start or end tokens (comment openers, shift symbols, arrows, newline,
+    NUL, a non-ASCII byte): position bookkeeping at the very beginning / end of the input and lookahead handling of the
+    scanner are only exercised by texts this short"""
+    import itertools
+    out = []
+    for b1 in range(256):
+        out.append(("short1:%02x" % b1, "short", chr(b1)))
+    a2 = [ord(c) for c in "/\\*=<>-+&|{}[]():;,.'_\"!?#$%@^~`1aZ \t\n\r"] + [0, 0x7f, 0x80, 0xc3, 0xff]
+    for x in itertools.product(a2, repeat=2):
+        out.append(("short2:%02x%02x" % x, "short", "".join(map(chr, x))))
+    a3 = [ord(c) for c in "/\\*=<>-1a \n{:"] + [0, 0x80]
+    for x in itertools.product(a3, repeat=3):
+        out.append(("short3:" + "".join("%02x" % v for v in x), "short", "".join(map(chr, x))))
+    a4 = [ord(c) for c in "/\\*<-a \n"] + [0]
+    for x in itertools.product(a4, repeat=4):
+        out.append(("short4:" + "".join("%02x" % v for v in x), "short", "".join(map(chr, x))))
+    return out
+
+
 def measure_growth(b, tier, only=None):
     """run every family at sizes n and 4n (own probe process per family, 60 s watchdog);
     returns {family: (n, (us, bytes, verdict) at n, (us, bytes, verdict) at 4n, len(text 4n))}"""
@@ -113,6 +134,7 @@ def run(b, ps, tier, seed):
     n_mut, n_rand = (1500, 1500) if tier == "quick" else (60000, 60000)
     cases = list(T.stream(seed, n_mut, n_rand))
     cases.append(("big:garbage", "big", garbage(seed, 4000)))
+    cases.extend(short_texts())
     violations = []
     t0 = time.time()
     impl, model, _ = ({}, {}, [])
